@@ -120,6 +120,7 @@ theorem exact_all (H : Hierarchy) : ∀ a : Ann, Exact H a
   | .base b => exact_base H b
   | .cls k => exact_cls H k
   | .typeC k => exact_typeC H k
+  | .typeU ks bs => exact_typeU H ks bs
   | .opt a => exact_opt H a (exact_all H a)
   | .union as => exact_union H as (exact_allL H as)
   | .gen1 g a => exact_gen1 H g a (exact_all H a)
